@@ -127,7 +127,7 @@ def check(an, rep, tier):
                 any(isinstance(x, ast.Call) and
                     (prog.dotted(x.func) or '').split('.')[-1] in ('abs',
                                                                     'absolute')
-                    for x in ast.walk(node.value)):
+                    for x in ast.walk(roles.inline(fn.node, node.value))):
             qmax_names.add(node.targets[0].id)
     n_sq = 0
     for x in ast.walk(fn.node):
@@ -341,12 +341,18 @@ def check(an, rep, tier):
             'rejected', 'ok' if n_raise >= 1 else 'violation', '')
     # the exponent q = int(log2(n)) that was checked against the mode size
     # is the one used to map the indices back
+    from .. import roles as _roles
+
+    def _is_int_log2(v):
+        v = _roles.inline(fq.node, v)
+        return isinstance(v, ast.Call) and isinstance(v.func, ast.Name) and \
+            v.func.id == 'int' and any(
+                isinstance(c, ast.Call) and
+                (prog.dotted(c.func) or '').endswith('log2')
+                for c in ast.walk(v))
     qdef = {n_.targets[0].id for n_ in ast.walk(fq.node)
             if isinstance(n_, ast.Assign) and
-            isinstance(n_.targets[0], ast.Name) and
-            any(isinstance(c, ast.Call) and
-                (prog.dotted(c.func) or '').endswith('log2')
-                for c in ast.walk(n_.value))}
+            isinstance(n_.targets[0], ast.Name) and _is_int_log2(n_.value)}
     qs = set()
     for node in ast.walk(fq.node):
         if isinstance(node, ast.Call) and \
